@@ -68,7 +68,7 @@ Theorem C11_holds_b_sound c t : C11_holds_b c t = true -> pre_case c = true ->
      Forall (fun x => snd x = Ended /\ fst (fst x) = 0) (tr_after_end t)) /\
   hints_bracket t.
 Proof.
-  unfold C11_holds_b. intros H P. rewrite P in H. simpl in H.
+  unfold C11_holds_b, gen_ok. intros H P. rewrite P in H. simpl in H.
   apply andb_prop in H. destruct H as [H H3]. apply andb_prop in H. destruct H as [H1 H2].
   split; [|split].
   - destruct (tr_items t) as [its|]; [|discriminate].
